@@ -142,7 +142,8 @@ def _seat_lines(rec, fmt):
 
 def pokerstars(rec, sb, bb, hand_id=123456789):
     N = rec['names']
-    L = [f"PokerStars Hand #{hand_id}:  Hold'em No Limit (${money(sb)}/"
+    head = rec.get('ps_header') or 'Hand'
+    L = [f"PokerStars {head} #{hand_id}:  Hold'em No Limit (${money(sb)}/"
          f"${money(bb)} USD) - 2020/01/02 12:34:56 ET",
          f"Table 'Alpha II' 9-max Seat #{rec['seats'][rec['n'] - 1]} is the"
          " button"]
